@@ -199,6 +199,16 @@ func runWorker(scs []*Scenario, base uint64, from, step int, tc tierCfg, wantHas
 			rec := fmt.Sprintf("%-127s\n", fmt.Sprintf("%d %d %s %d", i, seedOf(base, i), sc.Name, cell))
 			progFile.WriteAt([]byte(rec), 0)
 		}
+		if tw := os.Getenv("SIMRUN_TEST_WATCHDOG"); tw != "" && tw == strconv.Itoa(i) {
+			// development: exercise the master's handling of a watchdog exit (once per scratch dir,
+			// or every time with SIMRUN_TEST_WATCHDOG_ALWAYS)
+			mk := filepath.Join(scratch, "test-watchdog-fired")
+			if _, err := os.Stat(mk); err != nil || os.Getenv("SIMRUN_TEST_WATCHDOG_ALWAYS") != "" {
+				os.WriteFile(mk, nil, 0644)
+				fmt.Fprintln(os.Stderr, "simrt watchdog: simulated for testing")
+				os.Exit(2)
+			}
+		}
 		rep := runOne(sc, seedOf(base, i), nil, false, cell)
 		sum.Runs++
 		sum.Steps += rep.Steps
@@ -378,6 +388,32 @@ func spawnWorkers(prop, tier string, seed uint64, workers int, tc tierCfg, scrat
 			}
 			from := k
 			var acc *workerSummary
+			lastWatchdog, watchdogs := -1, 0
+			// findings a dead incarnation had persisted
+			mergePersisted := func() {
+				if acc == nil {
+					acc = &workerSummary{Faults: map[string]int{}, Probes: map[string]int{}, Policies: map[string]int{}, Scenarios: map[string]int{}, ViolCount: map[string]int{}}
+				}
+				if vb, err := os.ReadFile(filepath.Join(scratch, fmt.Sprintf("viol-%d.jsonl", k))); err == nil {
+					for _, ln := range strings.Split(strings.TrimSpace(string(vb)), "\n") {
+						rr := &RunReport{}
+						if ln != "" && json.Unmarshal([]byte(ln), rr) == nil && len(rr.Viols) > 0 {
+							dup := false
+							for _, have := range acc.Viols {
+								if have.Seed == rr.Seed && have.Viols[0].Sig == rr.Viols[0].Sig {
+									dup = true
+								}
+							}
+							if !dup {
+								acc.Viols = append(acc.Viols, rr)
+								for _, v := range rr.Viols {
+									acc.ViolCount[v.Sig]++
+								}
+							}
+						}
+					}
+				}
+			}
 			for attempt := 0; ; attempt++ {
 				for ai := range args {
 					if args[ai] == "-from" {
@@ -385,7 +421,7 @@ func spawnWorkers(prop, tier string, seed uint64, workers int, tc tierCfg, scrat
 					}
 				}
 				cmd := exec.Command(exe, args...)
-				cmd.Env = append(os.Environ(), "SIMRUN_RACELOG="+filepath.Join(scratch, "race"),
+				cmd.Env = append(os.Environ(), "SIMRUN_DUMP_DIR="+scratch, "SIMRUN_RACELOG="+filepath.Join(scratch, "race"),
 					"GORACE=log_path="+filepath.Join(scratch, "race")+" halt_on_error=0 exitcode=0 history_size=2")
 				if gomaxprocs > 0 {
 					cmd.Env = append(cmd.Env, "GOMAXPROCS="+strconv.Itoa(gomaxprocs))
@@ -414,6 +450,20 @@ func spawnWorkers(prop, tier string, seed uint64, workers int, tc tierCfg, scrat
 					if perr == nil {
 						fmt.Sscanf(string(pb), "%d %d %s %d", &pi, &pseed, &pscen, &pcell)
 					}
+					if strings.Contains(es, "simrt watchdog") && perr == nil && pseed != 0 && pi != lastWatchdog && watchdogs < 3 {
+						// a real goroutine of the simulator got stuck (machinery trouble, never a verdict).
+						// Run the same run again in a fresh process: if it hangs again the trouble is
+						// reproducible and the check gives up (exit 2); otherwise exploration goes on and
+						// the incident is counted in the evidence.
+						lastWatchdog = pi
+						watchdogs++
+						os.WriteFile(filepath.Join(scratch, fmt.Sprintf("incident-watchdog-%d-%d.txt", k, pi)), []byte(es), 0644)
+						mergePersisted()
+						acc.Probes["machinery_watchdog_restart"]++
+						acc.Runs += (pi - from) / workers
+						from = pi
+						continue
+					}
 					if death != "" && perr == nil && attempt >= 20 && acc != nil {
 						// the code under test keeps killing the worker: enough evidence, stop exploring in this slot
 						sums[k] = acc
@@ -427,29 +477,7 @@ func spawnWorkers(prop, tier string, seed uint64, workers int, tc tierCfg, scrat
 						return
 					}
 					// the code under test killed the process: that is a violation of the run in progress
-					if acc == nil {
-						acc = &workerSummary{Faults: map[string]int{}, Probes: map[string]int{}, Policies: map[string]int{}, Scenarios: map[string]int{}, ViolCount: map[string]int{}}
-					}
-					// findings the dead incarnation had persisted
-					if vb, err := os.ReadFile(filepath.Join(scratch, fmt.Sprintf("viol-%d.jsonl", k))); err == nil {
-						for _, ln := range strings.Split(strings.TrimSpace(string(vb)), "\n") {
-							rr := &RunReport{}
-							if ln != "" && json.Unmarshal([]byte(ln), rr) == nil && len(rr.Viols) > 0 {
-								dup := false
-								for _, have := range acc.Viols {
-									if have.Seed == rr.Seed && have.Viols[0].Sig == rr.Viols[0].Sig {
-										dup = true
-									}
-								}
-								if !dup {
-									acc.Viols = append(acc.Viols, rr)
-									for _, v := range rr.Viols {
-										acc.ViolCount[v.Sig]++
-									}
-								}
-							}
-						}
-					}
+					mergePersisted()
 					sig := "process-death:" + pscen
 					acc.ViolCount[sig]++
 					acc.Runs++
@@ -477,6 +505,12 @@ func spawnWorkers(prop, tier string, seed uint64, workers int, tc tierCfg, scrat
 						s.ViolCount[sg] += n
 					}
 					s.Viols = append(s.Viols, acc.Viols...)
+					for pk, n := range acc.Probes {
+						if s.Probes == nil {
+							s.Probes = map[string]int{}
+						}
+						s.Probes[pk] += n
+					}
 				}
 				sums[k] = s
 				return
@@ -528,6 +562,16 @@ func runMaster(prop, tier string, seed uint64, workers int, tc tierCfg, evidence
 	start := time.Now()
 	kf := loadKnown(known)
 	sums, workerErr := spawnWorkers(prop, tier, seed, workers, tc, scratch, false, 0, only)
+	// keep the post-mortem material of machinery incidents (watchdog dumps) next to the replays
+	for _, pat := range []string{"incident-*.txt", "watchdog-*.txt"} {
+		ms, _ := filepath.Glob(filepath.Join(scratch, pat))
+		for _, m := range ms {
+			if b, err := os.ReadFile(m); err == nil {
+				os.MkdirAll(replays, 0755)
+				os.WriteFile(filepath.Join(replays, prop+"-"+filepath.Base(m)), b, 0644)
+			}
+		}
+	}
 	if workerErr != nil {
 		anyViol := false
 		for _, s := range sums {
